@@ -12,7 +12,7 @@ def run(tier, seed, replay=None):
         cases = [json.load(open(replay))["case_line"]]
         mc_stats = {"distinct": 0, "generated": 0}
     else:
-        cases, mc_stats, _ = vlib.run_mc("MC_C09.tla", "C09_quick.cfg", "C09", workers=8, timeout=3000)
+        cases, mc_stats, _ = vlib.run_mc("MC_C09.tla", "C09_%s.cfg" % tier, "C09", workers=8, timeout=3000)
     items = []
     for c in cases:
         defs = dict(c["calls"][0]["doc"]["defs"])
